@@ -10,11 +10,13 @@
 (*   root; query parameters without the leading dot), the offending value  *)
 (*   (JsonError: JSON text, compared after parsing it back), the missing   *)
 (*   field, the unknown key / value with every accepted alternative and a  *)
-(*   suggestion exactly when DDidYouMean!Suggest finds one, and for        *)
+(*   suggestion exactly when an alternative is within the typo budget,     *)
+(*   naming one of those (DDidYouMean!Close), and for                      *)
 (*   `Unexpected` the segments of the detail message itself.               *)
-(* The wording outside the segments is not constrained, except that a kind *)
-(* error contains the expected-kinds phrase of DKinds, a length error the  *)
-(* two lengths, and `Unexpected` the detail message.                       *)
+(* The wording outside the segments is not constrained, except that a      *)
+(* length error contains the two lengths and `Unexpected` the detail       *)
+(* message.  (The expected-kinds phrase is C17's business: C14 does not    *)
+(* mention it.)                                                            *)
 (***************************************************************************)
 EXTENDS Deserr
 
@@ -75,15 +77,21 @@ BQSegs(s) == BQFrom(s, 1, FALSE, "")
 FiniteV(v) == v.t # "float" \/ FiniteBits(v.s)
 
 Texts(ss) == [j \in 1..Len(ss) |-> MText(ss[j])]
-Suggestion(recvcp, acccp, accepted) ==
-    LET j == DY!Suggest(recvcp, acccp) IN IF j = 0 THEN <<>> ELSE <<MText(accepted[j])>>
+\* C14: "a suggestion only when one is close" - which of several close alternatives is named is C18's business (did_you_mean
+\* itself), so every alternative within the budget is admitted here
+Suggestions(recvcp, acccp, accepted) ==
+    LET S == DY!Close(recvcp, acccp) IN IF S = {} THEN {<<>>} ELSE {<<MText(accepted[j])>> : j \in S}
+SugOf(det, ma) ==
+    CASE det.k = "unknownkey"   -> Suggestions(ma.keycp, ma.acccp, det.accepted)
+      [] det.k = "unknownvalue" -> Suggestions(ma.valuecp, ma.acccp, det.accepted)
+      [] OTHER -> {<<>>}
 
-ExpectedJson(det, loc, ma) ==
+ExpectedJson(det, loc, ma, sug) ==
     LET path == IF Len(loc) = 0 THEN <<>> ELSE <<MText(RenderJsonLoc(loc))>> IN
     CASE det.k = "kind"         -> path \o (IF det.actual.t = "null" \/ ~FiniteV(det.actual) THEN <<>> ELSE <<MJson(det.actual)>>)
       [] det.k = "missing"      -> <<MText(det.field)>> \o path
-      [] det.k = "unknownkey"   -> <<MText(det.key)>> \o path \o Suggestion(ma.keycp, ma.acccp, det.accepted) \o Texts(det.accepted)
-      [] det.k = "unknownvalue" -> <<MText(det.value)>> \o path \o Suggestion(ma.valuecp, ma.acccp, det.accepted) \o Texts(det.accepted)
+      [] det.k = "unknownkey"   -> <<MText(det.key)>> \o path \o sug \o Texts(det.accepted)
+      [] det.k = "unknownvalue" -> <<MText(det.value)>> \o path \o sug \o Texts(det.accepted)
       [] det.k = "badlen"       -> path \o <<MJson(det.actual)>>
       [] OTHER                  -> path \o BQSegs(det.msg)
 
@@ -95,12 +103,12 @@ QueryValue(v) ==
       [] v.t = "str" -> <<MText(v.s)>>
       [] OTHER -> <<>>
 
-ExpectedQuery(det, loc, ma) ==
+ExpectedQuery(det, loc, ma, sug) ==
     LET path == IF Len(loc) = 0 THEN <<>> ELSE <<MText(RenderQueryLoc(loc))>> IN
     CASE det.k = "kind"         -> path \o QueryValue(det.actual)
       [] det.k = "missing"      -> <<MText(det.field)>> \o path
-      [] det.k = "unknownkey"   -> <<MText(det.key)>> \o path \o Suggestion(ma.keycp, ma.acccp, det.accepted) \o Texts(det.accepted)
-      [] det.k = "unknownvalue" -> <<MText(det.value)>> \o path \o Suggestion(ma.valuecp, ma.acccp, det.accepted) \o Texts(det.accepted)
+      [] det.k = "unknownkey"   -> <<MText(det.key)>> \o path \o sug \o Texts(det.accepted)
+      [] det.k = "unknownvalue" -> <<MText(det.value)>> \o path \o sug \o Texts(det.accepted)
       [] det.k = "badlen"       -> path \o <<MJson(det.actual)>>
       [] OTHER                  -> path \o BQSegs(det.msg)
 
@@ -128,10 +136,9 @@ Lengths(det, nums) ==
 \* the whole guard for one report whose renderings were logged
 MessagesAgree(e, payload) ==
     LET det == e.det ma == e.ma IN
-    /\ MatchBag(ma.sj, ExpectedJson(det, e.loc, ma))
-    /\ MatchBag(ma.sq, ExpectedQuery(det, e.loc, ma))
+    /\ \E sug \in SugOf(det, ma) : MatchBag(ma.sj, ExpectedJson(det, e.loc, ma, sug))
+    /\ \E sug \in SugOf(det, ma) : MatchBag(ma.sq, ExpectedQuery(det, e.loc, ma, sug))
     /\ ReadBack(det, e.loc, ma, payload)
     /\ Lengths(det, ma.nj) /\ Lengths(det, ma.nq)
-    /\ (det.k = "kind" => Contains(e.mj, DK!DescSpec(SeqToSet(det.accepted))) /\ Contains(e.mq, "a string"))
     /\ (det.k = "unexpected" => Contains(e.mj, det.msg) /\ Contains(e.mq, det.msg))
 =============================================================================
